@@ -199,6 +199,17 @@ def load_function(target, override=None):
         m2.__dict__['__file__'] = path
         exec(compile(src, path, 'exec'), m2.__dict__)
         mod = m2
+    if '@' in qual:
+        # mechanically extracted fragment: the wrapper text is exec'd in the (possibly mutated) module namespace
+        from pyvc import extract      # pure stdlib (ast), importable under the native interpreter
+        ov = None
+        if override and override.get('relpath') == relpath:
+            ov = {relpath: src}
+        extract.clear_cache()
+        text, name = extract.fragment_source(target, ov)
+        ns = mod.__dict__
+        exec(compile(text, '<fragment of %s>' % target, 'exec'), ns)
+        return ns[name], mod
     obj = mod
     for part in qual.split('.'):
         obj = getattr(obj, part)
